@@ -174,8 +174,10 @@ def toChromosome (par : Par) : Location → R Location
     | .chunk _ => optimizeLoc true l
   | loc => pure loc
 
-/-- `VariantInterval.lift_over_location` (parent with sequence) -/
-def lift1 (par : Par) (ref : Seq) (v : Var) (loc : Location) : R Location :=
+/-- `VariantInterval.lift_over_location` (parent with sequence).
+    `repaired = false` is the code AS IT IS.  `repaired = true` adds the proposed repair of F-C13b: an EmptyLocation
+    result is returned as it is instead of being handed to `liftover_location_to_seq_chunk_parent`. -/
+def lift1 (repaired : Bool) (par : Par) (ref : Seq) (v : Var) (loc : Location) : R Location :=
   match loc with
   | .empty => pure .empty
   | _ => do
@@ -187,10 +189,12 @@ def lift1 (par : Par) (ref : Seq) (v : Var) (loc : Location) : R Location :=
       let nl ← (match loc with
                 | .single _ _ => liftSingle v loc
                 | _ => liftCompound v loc)
-      reparent par altLen nl
+      match repaired, nl with
+      | true, .empty => pure .empty
+      | _, _ => reparent par altLen nl
 
 /-- the `for variant in self.variant_intervals` loops of `VariantIntervalCollection.lift_over_location`:
-    sequential application in ascending order, each step on the output of the previous one -/
+    sequential application, each step on the output of the previous one -/
 def liftSeqSingle : List Var → Location → R Location
   | [], loc => pure loc
   | v :: vs, loc => do let l ← liftSingle v loc; liftSeqSingle vs l
@@ -199,17 +203,37 @@ def liftSeqCompound : List Var → Location → R Location
   | [], loc => pure loc
   | v :: vs, loc => do let l ← liftCompound v loc; liftSeqCompound vs l
 
-/-- `VariantIntervalCollection.lift_over_location` (parent with sequence; `vs` sorted) -/
-def liftN (par : Par) (ref : Seq) (vs : List Var) (loc : Location) : R Location :=
+/-- the single-interval loop with the repair: stop as soon as nothing is left -/
+def liftSeqSingleStop : List Var → Location → R Location
+  | [], loc => pure loc
+  | v :: vs, loc => do
+    let l ← liftSingle v loc
+    match l with
+    | .empty => pure .empty
+    | _ => liftSeqSingleStop vs l
+
+/-- `VariantIntervalCollection.lift_over_location` (parent with sequence; `vs` sorted ascending).
+    `repaired = false`: the code AS IT IS — the variants are applied in ASCENDING order (F-C13a).
+    `repaired = true`: the proposed repair — DESCENDING order (`reversed(self.variant_intervals)`), and an
+    EmptyLocation is returned as it is (F-C13b). -/
+def liftN (repaired : Bool) (par : Par) (ref : Seq) (vs : List Var) (loc : Location) : R Location :=
   match loc with
   | .empty => pure .empty
   | _ => do
     let loc ← toChromosome par loc
     let altLen := (altSeqN par.off ref vs).length
-    let nl ← (match loc with
-              | .single _ _ => liftSeqSingle vs loc
-              | _ => liftSeqCompound vs loc)
-    reparent par altLen nl
+    if repaired then do
+      let nl ← (match loc with
+                | .single _ _ => liftSeqSingleStop vs.reverse loc
+                | _ => liftSeqCompound vs.reverse loc)
+      match nl with
+      | .empty => pure .empty
+      | _ => reparent par altLen nl
+    else do
+      let nl ← (match loc with
+                | .single _ _ => liftSeqSingle vs loc
+                | _ => liftSeqCompound vs loc)
+      reparent par altLen nl
 
 /-- one VariantInterval or a VariantIntervalCollection -/
 inductive Variants where
@@ -221,9 +245,9 @@ def Variants.altSeq (par : Par) (ref : Seq) : Variants → Seq
   | .one v => altSeq1 par.off ref v
   | .many vs => altSeqN par.off ref vs
 
-def Variants.lift (par : Par) (ref : Seq) : Variants → Location → R Location
-  | .one v => lift1 par ref v
-  | .many vs => liftN par ref vs
+def Variants.lift (repaired : Bool) (par : Par) (ref : Seq) : Variants → Location → R Location
+  | .one v => lift1 repaired par ref v
+  | .many vs => liftN repaired par ref vs
 
 /-! ### sequence extraction (Location.extract_sequence on a parent with sequence) -/
 
@@ -272,15 +296,15 @@ def rebuild (par : Par) (alt : Seq) (nl : Location) : R Shown := do
     pure ⟨st, chrom, rel, s⟩
 
 /-- `FeatureInterval.incorporate_variants` -/
-def incorporateFeature (par : Par) (ref : Seq) (vs : Variants) (loc : Location) : R Shown := do
-  let nl ← vs.lift par ref loc
+def incorporateFeature (repaired : Bool) (par : Par) (ref : Seq) (vs : Variants) (loc : Location) : R Shown := do
+  let nl ← vs.lift repaired par ref loc
   match nl with
   | .empty => throw .EmptyLocation
   | _ => rebuild par (vs.altSeq par ref) nl
 
 /-- `CDSInterval.incorporate_variants` (location part; frames are C05's subject) -/
-def incorporateCDS (par : Par) (ref : Seq) (vs : Variants) (loc : Location) : R Shown := do
-  let nl ← vs.lift par ref loc
+def incorporateCDS (repaired : Bool) (par : Par) (ref : Seq) (vs : Variants) (loc : Location) : R Shown := do
+  let nl ← vs.lift repaired par ref loc
   match nl with
   | .empty => throw .EmptyLocation
   | _ => do
@@ -288,12 +312,12 @@ def incorporateCDS (par : Par) (ref : Seq) (vs : Variants) (loc : Location) : R 
     if blocksLen sh.chrom = 0 then throw .InvalidCDSInterval else pure sh
 
 /-- `TranscriptInterval.incorporate_variants`: CDS first, then the exons, then the constructor's CDS bounds check -/
-def incorporateTranscript (par : Par) (ref : Seq) (vs : Variants) (exons : Location) (cds : Option Location) :
-    R (Shown × Option Shown) := do
+def incorporateTranscript (repaired : Bool) (par : Par) (ref : Seq) (vs : Variants) (exons : Location)
+    (cds : Option Location) : R (Shown × Option Shown) := do
   let newCds ← (match cds with
-                | some c => do let s ← incorporateCDS par ref vs c; pure (some s)
+                | some c => do let s ← incorporateCDS repaired par ref vs c; pure (some s)
                 | none => pure none)
-  let nl ← vs.lift par ref exons
+  let nl ← vs.lift repaired par ref exons
   match nl with
   | .empty => throw .EmptyLocation
   | _ => do
@@ -346,6 +370,10 @@ structure Coll where
 def vcfDicts (r : VcfRec) : List VarDict :=
   r.alts.map fun a => ⟨r.start, if r.start = r.«end» then r.«end» + 1 else r.«end», a.1, a.2, r.ps⟩
 
+/-- repair of F-C13c: `if getattr(sample.data, "PS", None) is not None` — a missing PS value is like no PS field -/
+def repairPS (repaired : Bool) (r : VcfRec) : VcfRec :=
+  if repaired then { r with ps := (match r.ps with | .missing => .absent | p => p) } else r
+
 /-- `itertools.groupby(recs, key=CHROM)`: runs of consecutive records with the same CHROM -/
 def groupRuns : List VcfRec → List (List Char × List VcfRec)
   | [] => []
@@ -388,8 +416,8 @@ def intStr (i : Int) : List Char := (toString i).toList
 
 /-- the collections of one chromosome; `none` = Python's sort would have to compare None (TypeError: outside
     the model, which has no internal errors) -/
-def vcfColls (chrom : List Char) (recs : List VcfRec) : Option (List Coll) :=
-  let ds := recs.flatMap vcfDicts
+def vcfColls (repaired : Bool) (chrom : List Char) (recs : List VcfRec) : Option (List Coll) :=
+  let ds := (recs.map (repairPS repaired)).flatMap vcfDicts
   let keyed := ds.map fun d => (sortKey d, d)
   if ds.length ≥ 2 ∧ keyed.any (fun p => p.1.isNone) then none
   else
@@ -406,9 +434,9 @@ def dictSet (k : List Char) (v : List Coll) : List (List Char × List Coll) → 
   | x :: xs => if x.1 = k then (k, v) :: xs else x :: dictSet k v xs
 
 /-- `convert_vcf_records_to_model` -/
-def convertVcf (recs : List VcfRec) : Option (List (List Char × List Coll)) :=
+def convertVcf (repaired : Bool) (recs : List VcfRec) : Option (List (List Char × List Coll)) :=
   (groupRuns recs).foldl (fun acc g =>
-    match acc, vcfColls g.1 g.2 with
+    match acc, vcfColls repaired g.1 g.2 with
     | some d, some cs => some (dictSet g.1 cs d)
     | _, _ => none) (some [])
 
